@@ -267,6 +267,255 @@ def gen_options():
     write_if_changed(os.path.join(GEN, 'Options.lean'), '\n'.join(out))
     return problems
 
+
+# ------------------------------------------------------------------------------------------------ C10
+SOLVERS = [('coneprog', 'conelp'), ('coneprog', 'coneqp'), ('cvxprog', 'cpl')]
+
+def kkt_callables(fn):
+    """names that, when called, may run the KKT factorisation or a KKT solve:
+    `kktsolver`, every name bound to `kktsolver(...)`, and every local function that calls one of them."""
+    names = {'kktsolver': 'factor'}
+    for n in ast.walk(fn):
+        if isinstance(n, ast.Assign) and isinstance(n.value, ast.Call) and isinstance(n.value.func, ast.Name) \
+           and n.value.func.id == 'kktsolver' and len(n.targets) == 1 and isinstance(n.targets[0], ast.Name):
+            names[n.targets[0].id] = 'solve'
+    changed = True
+    while changed:
+        changed = False
+        for n in ast.walk(fn):
+            if isinstance(n, ast.FunctionDef) and n is not fn and n.name not in names:
+                if n.name == 'kktsolver': continue
+                for c in ast.walk(n):
+                    if isinstance(c, ast.Call) and isinstance(c.func, ast.Name) and names.get(c.func.id) == 'solve':
+                        names[n.name] = 'solve'; changed = True; break
+    return names
+
+def handler_paths(body):
+    """Enumerates the control paths of an exception-handler body.
+    Returns a list of (guard, outcome): guard = list of (atom source text, polarity); outcome is one of
+    'raise <Class>', 'return <status>', 'retry' (continue), 'recovered' (handler falls through: the solve goes on).
+    Boolean flags assigned constants are tracked; a nested `try` contributes the atom 'retry-ok'."""
+    results = []
+    def const_of(node, env):
+        if isinstance(node, ast.Constant): return node.value
+        if isinstance(node, ast.Name) and node.id in env: return env[node.id]
+        return None
+    def run(stmts, env, guard):
+        """returns list of (env, guard) states that fall through the statement list"""
+        live = [(dict(env), list(guard))]
+        for st in stmts:
+            nxt = []
+            for env1, g1 in live:
+                if isinstance(st, ast.Raise):
+                    results.append((g1, 'raise ' + raise_class(st))); continue
+                if isinstance(st, ast.Return):
+                    status = '?'
+                    if isinstance(st.value, ast.Dict):
+                        for k, v in zip(st.value.keys, st.value.values):
+                            if isinstance(k, ast.Constant) and k.value == 'status':
+                                c = const_of(v, env1)
+                                status = c if isinstance(c, str) else ast.unparse(v)
+                    results.append((g1, 'return ' + str(status))); continue
+                if isinstance(st, ast.Continue):
+                    results.append((g1, 'retry')); continue
+                if isinstance(st, ast.Assign) and len(st.targets) == 1 and isinstance(st.targets[0], ast.Name) \
+                   and isinstance(st.value, ast.Constant) and isinstance(st.value.value, (bool, str)):
+                    e2 = dict(env1); e2[st.targets[0].id] = st.value.value
+                    nxt.append((e2, g1)); continue
+                if isinstance(st, ast.If) and not any(isinstance(x, (ast.Raise, ast.Return, ast.Continue, ast.Try, ast.Break))
+                                                      or (isinstance(x, ast.Assign) and isinstance(x.value, ast.Constant)
+                                                          and isinstance(x.value.value, (bool, str)))
+                                                      for x in ast.walk(st)):
+                    nxt.append((env1, g1)); continue       # e.g. `if show_progress: print(...)`
+                if isinstance(st, ast.If):
+                    t = st.test
+                    known = None
+                    if isinstance(t, ast.Name) and isinstance(env1.get(t.id), bool): known = env1[t.id]
+                    if isinstance(t, ast.UnaryOp) and isinstance(t.op, ast.Not) and isinstance(t.operand, ast.Name) \
+                       and isinstance(env1.get(t.operand.id), bool): known = not env1[t.operand.id]
+                    if known is True: nxt += run(st.body, env1, g1)
+                    elif known is False: nxt += run(st.orelse, env1, g1)
+                    else:
+                        src = ast.unparse(t)
+                        nxt += run(st.body, env1, g1 + [(src, True)])
+                        nxt += run(st.orelse, env1, g1 + [(src, False)])
+                    continue
+                if isinstance(st, ast.Try):
+                    # a retry inside the handler: it either succeeds (body falls through) or its own handler runs
+                    nxt += run([x for x in st.body if not isinstance(x, ast.Expr)], env1, g1 + [('retry-ok', True)])
+                    for h in st.handlers:
+                        nxt += run(h.body, env1, g1 + [('retry-ok', False)])
+                    continue
+                nxt.append((env1, g1))
+            live = nxt
+        return live
+    for env1, g1 in run(body, {}, []):
+        results.append((g1, 'recovered'))
+    return results
+
+def fault_sites(mod, name):
+    fn = find_func(load(mod), name)
+    names = kkt_callables(fn)
+    sites = []
+    outer_handler = [None]
+    def handler_of(tr):
+        for h in tr.handlers:
+            if h.type is not None and ast.unparse(h.type) in ('ArithmeticError', 'Exception', '(ArithmeticError,)'):
+                return h
+            if h.type is None: return h
+        return None
+    def visit(stmts, in_loop, tries):
+        for st in stmts:
+            if isinstance(st, ast.FunctionDef): continue
+            if isinstance(st, ast.Try):
+                h = handler_of(st)
+                visit(st.body, in_loop, tries + ([h] if h else []))
+                for hh in st.handlers:
+                    prev = outer_handler[0]
+                    if outer_handler[0] is None: outer_handler[0] = hh
+                    visit(hh.body, in_loop, tries)
+                    outer_handler[0] = prev
+                visit(st.orelse, in_loop, tries); visit(st.finalbody, in_loop, tries)
+                continue
+            if isinstance(st, (ast.For, ast.While)):
+                loop = in_loop or (isinstance(st, ast.For) and isinstance(st.target, ast.Name) and st.target.id == 'iters')
+                visit(st.body, loop, tries); visit(st.orelse, loop, tries)
+                continue
+            if isinstance(st, ast.If):
+                scan_expr(st.test, in_loop, tries)
+                visit(st.body, in_loop, tries); visit(st.orelse, in_loop, tries)
+                continue
+            if isinstance(st, ast.With):
+                visit(st.body, in_loop, tries); continue
+            scan_expr(st, in_loop, tries)
+    def scan_expr(node, in_loop, tries):
+        for c in ast.walk(node):
+            if isinstance(c, ast.Call) and isinstance(c.func, ast.Name) and c.func.id in names:
+                h = tries[-1] if tries else None
+                leaves = handler_paths(h.body) if h else []
+                reach = []
+                if h is not None and outer_handler[0] is not None:
+                    # the site is a retry inside another handler: what happens after its failure is decided by the
+                    # continuation in the enclosing handler
+                    leaves = [([a for a in g if a != ('retry-ok', False)], o) for g, o in handler_paths(outer_handler[0].body)
+                              if ('retry-ok', False) in g]
+                    # the retry is reached only under the guard of the enclosing handler's branch
+                    reach = leaves[0][0] if leaves else []
+                    for g, o in leaves:
+                        reach = [a for a in reach if a in g]
+                sites.append({'solver': name, 'line': c.lineno, 'callee': c.func.id, 'kind': names[c.func.id],
+                              'in_loop': in_loop, 'protected': h is not None, 'leaves': leaves, 'reach': reach})
+    visit(fn.body, False, [])
+    return sites
+
+def gen_faults():
+    out = ['/- GENERATED by tools/translate/py2lean.py (gen_faults) from /repo/src/python/{coneprog,cvxprog}.py. Do not edit. -/',
+           'import CvxVerif.Model.Faults', 'namespace CvxVerif.Gen.Faults', 'open CvxVerif.Faults', '']
+    rows = []
+    for mod, name in SOLVERS:
+        for s in fault_sites(mod, name):
+            leaves = llist('(%s, %s)' % (llist('(%s, %s)' % (lstr(a), 'true' if pol else 'false') for a, pol in g), lstr(o))
+                           for g, o in s['leaves'])
+            reach = llist('(%s, %s)' % (lstr(a), 'true' if pol else 'false') for a, pol in s['reach'])
+            rows.append('  { solver := %s, line := %d, callee := %s, kind := %s, inLoop := %s, guarded := %s,\n    reach := %s,\n    leaves := %s }'
+                        % (lstr(s['solver']), s['line'], lstr(s['callee']), lstr(s['kind']),
+                           'true' if s['in_loop'] else 'false', 'true' if s['protected'] else 'false', reach, leaves))
+    out.append('def sites : List Site := [\n' + ',\n'.join(rows) + ' ]\n')
+    rr = []
+    for mod, name in RAISE_FUNCS:
+        for r in raise_sites(mod, name):
+            rr.append('  { func := %s, line := %d, cls := %s, unbound := %s }' % (lstr(name), r['line'], lstr(r['cls']),
+                                                                              llist(map(lstr, r['unbound']))))
+    out.append('/-- every `raise` statement of the solver entry points -/')
+    out.append('def raises : List RaiseSite := [\n' + ',\n'.join(rr) + ' ]\n')
+    out.append('end CvxVerif.Gen.Faults\n')
+    write_if_changed(os.path.join(GEN, 'Faults.lean'), '\n'.join(out))
+    return []
+
+# ----------------------------------------------------------------------------- raise statements (C10)
+import builtins
+_scope_cache = {}
+def scope_info(fn, module_tree):
+    """(module-level+builtin names, parameter names, [(name, line)] stores in the function's own scope)"""
+    key = id(fn)
+    if key in _scope_cache: return _scope_cache[key]
+    glob = set(dir(builtins))
+    for n in module_tree.body:
+        if isinstance(n, (ast.FunctionDef, ast.ClassDef)): glob.add(n.name)
+        elif isinstance(n, (ast.Import, ast.ImportFrom)):
+            for a in n.names: glob.add((a.asname or a.name).split('.')[0])
+        else:
+            for x in ast.walk(n):
+                if isinstance(x, ast.Name) and isinstance(x.ctx, ast.Store): glob.add(x.id)
+    a = fn.args
+    params = {arg.arg for arg in a.args + a.kwonlyargs + ([a.vararg] if a.vararg else []) + ([a.kwarg] if a.kwarg else [])}
+    stores = []
+    def collect(node):
+        for ch in ast.iter_child_nodes(node):
+            if isinstance(ch, (ast.ListComp, ast.SetComp, ast.DictComp, ast.GeneratorExp, ast.Lambda)): continue
+            if isinstance(ch, (ast.FunctionDef, ast.ClassDef)):
+                stores.append((ch.name, ch.lineno)); continue
+            if isinstance(ch, ast.Name) and isinstance(ch.ctx, ast.Store): stores.append((ch.id, ch.lineno))
+            if isinstance(ch, (ast.Import, ast.ImportFrom)):
+                for al in ch.names: stores.append(((al.asname or al.name).split('.')[0], ch.lineno))
+            if isinstance(ch, ast.ExceptHandler) and ch.name: stores.append((ch.name, ch.lineno))
+            collect(ch)
+    collect(fn)
+    _scope_cache[key] = (glob, params, stores)
+    return _scope_cache[key]
+
+def bound_names(fn, module_tree, before_line=None):
+    """names visible in `fn`: builtins, module level names, parameters, and names stored in the function's own scope
+    (when `before_line` is given: only stores on earlier lines -- a name first stored later is a local that is still
+    unbound there, and it shadows the module-level/builtin name)"""
+    glob, params, stores = scope_info(fn, module_tree)
+    if before_line is None:
+        return glob | params | {n for n, _ in stores}
+    early = {n for n, l in stores if l < before_line}
+    late = {n for n, l in stores if l >= before_line} - early - params
+    return (glob - late) | params | early
+
+def raise_sites(mod, name):
+    tree = load(mod)
+    fn = find_func(tree, name)
+    bound = bound_names(fn, tree)
+    out = []
+    node_in_fn_scope = [True]
+    def walk(node, extra):
+        for ch in ast.iter_child_nodes(node):
+            if isinstance(ch, ast.FunctionDef) and ch is not fn:
+                b2 = set(extra) | {a.arg for a in ch.args.args} | bound_names(ch, tree)
+                node_in_fn_scope[0] = False
+                walk(ch, b2)
+                node_in_fn_scope[0] = True
+                continue
+            if isinstance(ch, ast.Raise) and ch.exc is not None:
+                e = ch.exc.func if isinstance(ch.exc, ast.Call) else ch.exc
+                cls = ast.unparse(e)
+                used = set()
+                def names_in(x, local):
+                    if isinstance(x, (ast.ListComp, ast.SetComp, ast.GeneratorExp, ast.DictComp)):
+                        loc = set(local)
+                        for g in x.generators:
+                            names_in(g.iter, loc)
+                            for t in ast.walk(g.target):
+                                if isinstance(t, ast.Name): loc.add(t.id)
+                            for i in g.ifs: names_in(i, loc)
+                        for part in ([x.elt] if hasattr(x, 'elt') else [x.key, x.value]): names_in(part, loc)
+                        return
+                    if isinstance(x, ast.Name) and x.id not in local: used.add(x.id)
+                    for c2 in ast.iter_child_nodes(x): names_in(c2, local)
+                names_in(ch.exc, set())
+                vis = bound_names(fn, tree, before_line=ch.lineno) if node_in_fn_scope[0] else bound
+                unbound = sorted(u for u in used if u not in vis and u not in extra)
+                out.append({'func': name, 'line': ch.lineno, 'cls': cls, 'unbound': unbound})
+            walk(ch, extra)
+    walk(fn, set())
+    return out
+
+RAISE_FUNCS = [('coneprog', 'conelp'), ('coneprog', 'coneqp'), ('coneprog', 'lp'), ('coneprog', 'socp'), ('coneprog', 'sdp'),
+               ('coneprog', 'qp'), ('cvxprog', 'cpl'), ('cvxprog', 'cp'), ('cvxprog', 'gp')]
+
 if __name__ == '__main__':
     which = sys.argv[1:] or ['options']
     for w in which:
